@@ -3,6 +3,7 @@ CONSTANTS
   InstFS <- MCInstFS
   Spell <- MCSpell
   LoadFix = FALSE
+  LoadReach <- AllPlacements
   InstSet = {1}
   SpellSet = {11, 12, 13, 14, 15, 16, 17, 18}
   MaxUnits = 3
